@@ -5,4 +5,14 @@ pub mod stubs;
 #[cfg(kani)]
 pub mod c18;
 #[cfg(kani)]
+pub mod c06;
+#[cfg(kani)]
+pub mod c20;
+#[cfg(kani)]
+pub mod c15;
+#[cfg(kani)]
+pub mod c04;
+#[cfg(kani)]
+pub mod c02;
+#[cfg(kani)]
 mod playback_gen;
